@@ -35,6 +35,7 @@ let run_b (imp : string) (inp : string) (obs : string) : string * string =
       let its = decode_items items in
       render (match imp with
         | "revolut2" -> K.run_revolut2 (a "acct") (a "fee") its
+        | "revolut" -> K.run_revolut (a "acct") its
         | _ -> failwith ("unknown importer " ^ imp)) in
   let (base, pr, rows) = split_observed obs in
   let cls = match String.index_opt base ' ' with Some i -> String.sub base 0 i | None -> base in
@@ -51,4 +52,4 @@ let run_b (imp : string) (inp : string) (obs : string) : string * string =
 
 let () =
   List.iter (fun imp -> register ("C13." ^ imp) (run_b imp))
-    ["revolut2"]
+    ["revolut2"; "revolut"]
